@@ -1,5 +1,5 @@
 // ======================================================================================
-// units/C15/cfg_import.rs — specification and proof vocabulary for ControlFlowGraph::append /
+// units/C15/cfg_import.rs - specification and proof vocabulary for ControlFlowGraph::append /
 // ::insert (copying every block and edge of another graph under fresh block indices).
 // Only spec fns and lemmas; the extracted functions are in cfg_edit.rs.
 // ======================================================================================
